@@ -478,28 +478,31 @@ class AtomicSaver:
         return self.part_file
 
     def __exit__(self, exc_type, exc_val, exc_tb):
-        if self.part_file:
-            # Ensure data is flushed and synced to disk before closing
-            self.part_file.flush()
-            os.fsync(self.part_file.fileno())
-            self.part_file.close()
+        try:
+            if self.part_file:
+                try:
+                    # Ensure data is flushed and synced to disk before closing
+                    self.part_file.flush()
+                    os.fsync(self.part_file.fileno())
+                finally:
+                    self.part_file.close()
+            if not exc_type:
+                atomic_rename(self.part_path, self.dest_path,
+                              overwrite=self.overwrite)
+        except Exception:
+            # could not write out the part file or save the destination file
+            if self.rm_part_on_exc:
+                try:
+                    os.unlink(self.part_path)
+                except Exception:
+                    pass  # avoid masking original error
+            raise
         if exc_type:
             if self.rm_part_on_exc:
                 try:
                     os.unlink(self.part_path)
                 except Exception:
                     pass  # avoid masking original error
-            return
-        try:
-            atomic_rename(self.part_path, self.dest_path,
-                          overwrite=self.overwrite)
-        except OSError:
-            if self.rm_part_on_exc:
-                try:
-                    os.unlink(self.part_path)
-                except Exception:
-                    pass  # avoid masking original error
-            raise  # could not save destination file
         return
 
 
